@@ -92,7 +92,7 @@ fn arg_value(c: &Call, a: &[Value]) -> Value {
     if c.arg == 999_991 {
         return Value::String(format!("{}y", "z".repeat(1_099_999)));
     }
-    // arguments whose rendering is longer than 64 KiB (picked by one random history in 30)
+    // arguments whose rendering is longer than 64 KiB (picked by one random history in 250)
     match c.arg {
         999_992 => return Value::String("x".repeat(70_000)),
         999_993 => return Value::String(format!("{}y", "x".repeat(69_999))),
@@ -303,7 +303,7 @@ fn random(ctx: &mut Ctx, n: usize) {
         // few distinct arguments per history so that repeats are common
         let k = 1 + rng.below(4);
         let mut local: Vec<usize> = (0..k).map(|_| if rng.chance(1, 4) { 1_000_000 + rng.below(1_000_000) } else { rng.below(a.len()) }).collect();
-        if rng.chance(1, 30) {
+        if rng.chance(1, 250) {
             local[0] = 999_992 + rng.below(3);
             if k > 1 && rng.chance(1, 2) {
                 local[1] = 999_992 + rng.below(3);
